@@ -174,6 +174,12 @@ func (c *ctx) finish() {
 	c.impl.Flush()
 	c.casesF.Close()
 	c.implF.Close()
+	if c.failures == nil {
+		c.failures = []failure{}
+	}
+	if c.samples == nil {
+		c.samples = []interface{}{}
+	}
 	out := map[string]interface{}{
 		"property": c.prop, "seed": c.seed, "tier": c.tier,
 		"evaluations": c.evals, "distinct_nontrivial": len(c.nontrivial),
@@ -202,6 +208,7 @@ func unhx(s string) []byte {
 func zhex(v int64) string  { return strconv.FormatInt(v, 16) }
 func uhex(v uint64) string { return strconv.FormatUint(v, 16) }
 
-func rdr(b []byte) *bufio.Reader { return bufio.NewReader(bytes.NewReader(b)) }
+// a reader whose Buffered() is exactly the number of unread bytes after the first read
+func rdr(b []byte) *bufio.Reader { return bufio.NewReaderSize(bytes.NewReader(b), len(b)+64) }
 
 var _ = strings.Join
